@@ -284,7 +284,7 @@ pub fn opt_space(backend: &str) -> Space<Opts> {
     }
     dims.push(d);
     // (first five positions are used for the pairs below; appended: IP literals in their longest spellings)
-    let atoms = ["host.example.com", "192.0.2.7", "2001:db8::1", "caf\u{e9}.example", "::1", "::ffff:10.0.0.1", "localhost", "*.wild.example", "2001:0db8:0000:0000:0000:0000:0000:0001", "0000:0000:0000:0000:0000:ffff:192.168.100.100", "0000:0000:0000:0000:0000:0000:255.255.255.255", "255.255.255.255", "fe80:0000:0000:0000:0202:b3ff:fe1e:8329", "\u{17f}an.example", "\u{212a}.example", "HOST.Example.COM", " 192.0.2.7", "192.0.2.7 ", "2001:db8::7\r", "192.0.2.7\n", "\u{a0}192.0.2.7", "2001:db8::7\u{2028}", "\u{ff11}92.0.2.7", "192.0.2.7.", "[2001:db8::7]", "192.0.2.7/32", "0x7f.1", "1.2.3", "192.0.2.007"];
+    let atoms = ["host.example.com", "192.0.2.7", "2001:db8::1", "caf\u{e9}.example", "::1", "::ffff:10.0.0.1", "localhost", "*.wild.example", "2001:0db8:0000:0000:0000:0000:0000:0001", "0000:0000:0000:0000:0000:ffff:192.168.100.100", "0000:0000:0000:0000:0000:0000:255.255.255.255", "255.255.255.255", "fe80:0000:0000:0000:0202:b3ff:fe1e:8329", "\u{17f}an.example", "\u{212a}.example", "HOST.Example.COM", " 192.0.2.7", "192.0.2.7 ", "2001:db8::7\r", "192.0.2.7\n", "\u{a0}192.0.2.7", "2001:db8::7\u{2028}", "\u{ff11}92.0.2.7", "192.0.2.7.", "[2001:db8::7]", "192.0.2.7/32", "0x7f.1", "1.2.3", "192.0.2.007", "primary,backup.example", "192.0.2.7,192.0.2.8", "a;b.example", "a b.example", "a=b", "a,"];
     let mut d = Dim::new("sans");
     for a in atoms {
         d = d.v(format!("[{}]", a), move |o: &mut Opts| o.sans = vec![a.to_string()]);
